@@ -4,8 +4,11 @@
    counting allocator).  What is logic is proved: every buffer of the model is bounded by a
    size constant, and the writer's tables depend on the shape of the call sequence only.
    Only statements, `exact`, `Check` pins, `Print Assumptions` and non-vacuity examples. *)
+From MLA Require Import Limit.
 From MLA Require Import Base Stream EncLayer CompLayer CompWriterProofs Blocks Writer Reader Repair Total TotalEnc Mem Inst.
 From MLA Require Import MemSize MemSizeProofs MemLayers MemReaders MemRepair.
+From Coq Require Import Permutation.
+From MLAGen Require Src.
 Open Scope N_scope.
 
 (* the decrypted chunk cache holds at most CHUNK bytes in EVERY state reachable by any sequence
@@ -35,9 +38,12 @@ Proof. exact copy_piece_bounded. Qed.
 (* the writer's tables (finalized flag, open-file ids, name table, per-file number of offsets,
    next id, current id): call sequences of the same shape — same calls on the same files in
    the same order, appends non-empty and served — leave tables of the same dimensions and
-   return the same results, however many bytes each append carries *)
-Theorem C15_tables_depend_on_shape_only :
-  forall FNMAX TS TC TA TE H order ops1 ops2 s1 s2,
+   return the same results, however many bytes each append carries.  The footer order is any
+   PERMUTATION of the map (the iteration order of the HashMap): finalize compares the serialised
+   size of the footer with the bincode limit, and that size does not depend on the order *)
+Theorem C15_tables_depend_on_shape_only {LIM : Limit} :
+  forall FNMAX TS TC TA TE H order, (forall f, Permutation (order f) f) ->
+  forall ops1 ops2 s1 s2,
     dims s1 = dims s2 -> Forall2 same_shape ops1 ops2 ->
     dims (fst (wrun FNMAX TS TC TA TE H order s1 ops1)) = dims (fst (wrun FNMAX TS TC TA TE H order s2 ops2)) /\
     snd (wrun FNMAX TS TC TA TE H order s1 ops1) = snd (wrun FNMAX TS TC TA TE H order s2 ops2).
@@ -48,11 +54,13 @@ Example C15_example :
   let ops := fun n => [OStart [97]; OStart [98]; OAppend 0 n (repeat 7 (N.to_nat n)); OAppend 1 n (repeat 8 (N.to_nat n));
                        OAppend 0 n (repeat 9 (N.to_nat n)); OEnd 0; OEnd 1; OFinalize] in
   Forall2 same_shape (ops 3) (ops 3000) /\
-  dims (fst (wrun 48 0 1 254 255 (fun b => [len b]) (fun f => f) w_init (ops 3))) =
-  dims (fst (wrun 48 0 1 254 255 (fun b => [len b]) (fun f => f) w_init (ops 3000))).
+  (forall f : footer, Permutation ((fun f => f) f) f) /\
+  dims (fst (wrun (LIM := Src.BINCODE_MAX_DESERIALIZE_prod) 48 0 1 254 255 (fun b => [len b]) (fun f => f) w_init (ops 3))) =
+  dims (fst (wrun (LIM := Src.BINCODE_MAX_DESERIALIZE_prod) 48 0 1 254 255 (fun b => [len b]) (fun f => f) w_init (ops 3000))).
 Proof.
-  split.
+  split; [|split].
   - repeat constructor; vm_compute; try reflexivity; try discriminate.
+  - intros f. apply Permutation_refl.
   - vm_compute. reflexivity.
 Qed.
 
@@ -76,7 +84,7 @@ Print Assumptions C15_tables_depend_on_shape_only.
    calls (a start records one offset, an append call of ANY size at most one, an end at most
    one); 6-7: the bounds: W_FIXED + 208 per file + 8 per run + the names; and with counts of
    calls only: W_FIXED + 224 per start call + 8 per append call + the names given. *)
-Theorem C15_writer_mem_bound :
+Theorem C15_writer_mem_bound {LIM : Limit} :
   forall FNMAX TS TC TA TE H order ops,
     let s := fst (wrun FNMAX TS TC TA TE H order w_init ops) in
     wmem s = W_FIXED + (FILES_ENTRY + IDS_ENTRY) * nfiles s + OFFSET_WORD * nruns s
@@ -92,7 +100,7 @@ Theorem C15_writer_mem_bound :
 Proof. exact writer_mem_bound. Qed.
 
 (* from any state *)
-Theorem C15_writer_mem_growth :
+Theorem C15_writer_mem_growth {LIM : Limit} :
   forall FNMAX TS TC TA TE H order ops s,
     wmem (fst (wrun FNMAX TS TC TA TE H order s ops)) <=
     wmem s + (FILES_ENTRY + IDS_ENTRY + OPEN_ENTRY + 2 * OFFSET_WORD) * n_start ops
@@ -100,8 +108,9 @@ Theorem C15_writer_mem_growth :
 Proof. exact writer_mem_growth. Qed.
 
 (* call lists of the same shape have the SAME measure, whatever the sizes of their appends *)
-Theorem C15_writer_mem_shape_only :
+Theorem C15_writer_mem_shape_only {LIM : Limit} :
   forall FNMAX TS TC TA TE H order ops1 ops2 s1 s2,
+    (forall f, Permutation (order f) f) ->
     dims s1 = dims s2 -> Forall2 same_shape ops1 ops2 ->
     wmem (fst (wrun FNMAX TS TC TA TE H order s1 ops1)) = wmem (fst (wrun FNMAX TS TC TA TE H order s2 ops2)).
 Proof. exact wmem_depends_on_shape_only. Qed.
@@ -112,22 +121,24 @@ Proof. exact wmem_depends_on_shape_only. Qed.
 Example C15_writer_mem_example :
   let ops := fun n => [OStart [97]; OStart [98]; OAppend 0 n (repeat 7 (N.to_nat n)); OAppend 1 n (repeat 8 (N.to_nat n));
                        OAppend 0 n (repeat 9 (N.to_nat n)); OEnd 0; OEnd 1; OAdd [99; 100] n (repeat 3 (N.to_nat n)); OFinalize] in
-  let run := fun n => fst (wrun 48 0 1 254 255 (fun b => [len b]) (fun f => f) w_init (ops n)) in
+  let run := fun n => fst (wrun (LIM := Src.BINCODE_MAX_DESERIALIZE_prod) 48 0 1 254 255 (fun b => [len b]) (fun f => f) w_init (ops n)) in
   Forall2 same_shape (ops 10) (ops 5000) /\
+  (forall f : footer, Permutation ((fun f => f) f) f) /\
   wmem (run 10) = 508 /\ wmem (run 5000) = 508 /\
   nfiles (run 5000) = 3 /\ nruns (run 5000) = 7 /\ nopen (run 5000) = 0 /\
   n_start (ops 5000) = 3 /\ n_append (ops 5000) = 4 /\ n_names (ops 5000) = 4 /\
   W_FIXED + (FILES_ENTRY + IDS_ENTRY + OPEN_ENTRY + 2 * OFFSET_WORD) * 3 + OFFSET_WORD * 4 + 4 = 916.
 Proof.
-  split.
+  split; [|split].
   - repeat constructor; vm_compute; try reflexivity; try discriminate.
+  - intros f. apply Permutation_refl.
   - vm_compute. repeat split; reflexivity.
 Qed.
 
 (* one append announcing 2^20 bytes (served short: an error, but the tables are updated first,
    as in the code) adds exactly one run: the measure does not see the size *)
 Example C15_writer_huge_append :
-  let run := fun z => fst (wrun 48 0 1 254 255 (fun b => [len b]) (fun f => f) w_init
+  let run := fun z => fst (wrun (LIM := Src.BINCODE_MAX_DESERIALIZE_prod) 48 0 1 254 255 (fun b => [len b]) (fun f => f) w_init
                              [OStart [97]; OStart [98]; OAppend 0 z [1; 2; 3]]) in
   wmem (run 3) = wmem (run (2 ^ 20)) /\ nruns (run (2 ^ 20)) = 3.
 Proof. vm_compute. split; reflexivity. Qed.
@@ -135,7 +146,7 @@ Proof. vm_compute. split; reflexivity. Qed.
 (* FINDING about the bound itself: "runs <= files + append calls" is FALSE — end_file also calls
    mark_continuous_block, so ending a file that is not the current one records an offset
    without any append.  Hence the 2 * files term above. *)
-Theorem C15_runs_le_files_plus_appends_refuted :
+Theorem C15_runs_le_files_plus_appends_refuted {LIM : Limit} :
   exists ops, let s := fst (wrun 48 0 1 254 255 (fun b => [len b]) (fun f => f) w_init ops) in
     nfiles s + n_append ops < nruns s.
 Proof. exists [OStart [97]; OStart [98]; OEnd 0]. vm_compute. reflexivity. Qed.
@@ -180,7 +191,7 @@ Theorem C15_comp_sizes_table_growth :
 Proof. exact comp_sizes_table_growth. Qed.
 
 (* finalize moves the block in progress to the table: one more entry at most *)
-Theorem C15_comp_finalize_table :
+Theorem C15_comp_finalize_table {LIM : Limit} :
   forall comp w w', cw_finalize comp w = (w', Ok tt) ->
     len (cw_sizes w') = len (cw_sizes w) + (match cw_st w with WInData _ _ => 1 | _ => 0 end) /\
     cw_buffered w' = 0.
@@ -264,7 +275,7 @@ Theorem C15_repair_mem_bounded :
 Proof. exact repair_mem_bounded. Qed.
 
 (* the writer returned by the whole of repair (clean-up and finalize included) *)
-Theorem C15_repair_result_mem :
+Theorem C15_repair_result_mem {LIM : Limit} :
   forall FNMAX CACHE TS TC TA TE H (S : Stream) fuel s0 status unfinished out,
     repair FNMAX CACHE TS TC TA TE H S fuel s0 w_init = Ok (status, unfinished, out) ->
     wmem out <= W_FIXED + (FILES_ENTRY + IDS_ENTRY + OPEN_ENTRY + FNMAX) * nfiles out + OFFSET_WORD * nruns out /\
